@@ -48,4 +48,8 @@ def fix(module: INSTANCENORM, **kwargs) -> INSTANCENORM:
     # else
     new_module = clone_module(module)
     new_module.track_running_stats = False
+    # the running statistics must go as well: while the buffers exist the layer keeps updating them
+    new_module.register_buffer("running_mean", None)
+    new_module.register_buffer("running_var", None)
+    new_module.register_buffer("num_batches_tracked", None)
     return new_module
